@@ -164,10 +164,32 @@ func (g *srvGen) variant(r2 *rand.Rand) int {
 		for a := c.rangeB; a <= c.rangeE; a++ {
 			g.pool = append(g.pool, a)
 		}
+	case 3:
+		// a network larger than /24 whose small dynamic range ends (or begins) on an address ending in .255 or .0: those are passed
+		// over, and nothing beyond the range may be handed out instead
+		c := &g.cfg
+		c.bits, c.netU, c.maskU = 22, 0x0a000000|uint32(1+r2.Intn(200))<<16|uint32(4*r2.Intn(60))<<8, 0xfffffc00
+		c.selfIP, c.router = c.netU+1, ipStr(c.netU+1)
+		edge := c.netU + []uint32{0x1ff, 0x200, 0x2ff, 0x100}[r2.Intn(4)]
+		if r2.Intn(3) == 0 {
+			c.hasRange, c.rangeB, c.rangeE = true, edge, edge+uint32(1+r2.Intn(4))
+		} else {
+			c.hasRange, c.rangeB, c.rangeE = true, edge-uint32(1+r2.Intn(4)), edge
+		}
+		c.statics, c.clientDNS, c.staticOnly = nil, map[string][]string{}, false
+		for _, cl := range g.clients {
+			cl.static = false
+		}
+		g.pool = nil
+		for a := c.rangeB; a <= c.rangeE; a++ {
+			g.pool = append(g.pool, a)
+		}
 	}
-	// the lease duration setting at its lower end, with a fraction of a second, and long
+	// the lease duration setting at its lower end, with a fraction of a second, long, and around 2^31 / at 2^32-1 seconds
+	// (option 51 is an unsigned 32-bit count of seconds; the address has to stay reserved for all of it)
 	if r2.Intn(3) == 0 {
-		g.cfg.lease = []time.Duration{60 * time.Second, 61900 * time.Millisecond, 90500 * time.Millisecond, 36 * time.Hour, 1000 * time.Hour}[r2.Intn(5)]
+		g.cfg.lease = []time.Duration{60 * time.Second, 61900 * time.Millisecond, 90500 * time.Millisecond, 36 * time.Hour, 1000 * time.Hour,
+			(1<<31 - 1) * time.Second, (1 << 31) * time.Second, 3000000000 * time.Second, (1<<32 - 1) * time.Second}[r2.Intn(9)]
 	}
 	g.op1 = r2.Intn(3) == 0
 	// per-client settings for clients without a reserved address (they identify themselves by client identifier or not)
@@ -814,7 +836,11 @@ func (g *srvGen) observe(cl *simClient, outs []outFrame) {
 func (g *srvGen) gap() time.Duration {
 	c := g.cfg
 	h := 15 * time.Second
-	return []time.Duration{0, 0, 0, time.Second, h - 3*time.Second, h + 2*time.Second, c.lease / 2, c.lease - 3*time.Second, c.lease + 2*time.Second, 3 * c.lease}[g.r.Intn(10)]
+	k := g.r.Intn(10)
+	if c.lease > 2000*time.Hour { // leases of decades: the clock of a history stays within what time.Duration can express
+		return []time.Duration{0, 0, 0, time.Second, h - 3*time.Second, h + 2*time.Second, time.Hour, 24 * time.Hour, 720 * time.Hour, 17 * time.Second}[k]
+	}
+	return []time.Duration{0, 0, 0, time.Second, h - 3*time.Second, h + 2*time.Second, c.lease / 2, c.lease - 3*time.Second, c.lease + 2*time.Second, 3 * c.lease}[k]
 }
 
 func runServerHistory(t *testing.T, c *caseWriter, tags string, kind string, seedv int64) {
@@ -886,6 +912,11 @@ func runServerHistory(t *testing.T, c *caseWriter, tags string, kind string, see
 			outs = [][]interface{}{{L{1}}} // monitors only
 		}
 		for i := 1; i < len(strings.Split(tags, "+")); i++ {
+			outs = append(outs, []interface{}{L{1}})
+		}
+		if strings.HasPrefix(tags, "101") {
+			// the premises of the wire-level theorems, evaluated on this very history (scope tag, see tools/props.py)
+			tags += "+220"
 			outs = append(outs, []interface{}{L{1}})
 		}
 		c.addMulti(tags, kind, true, s.encode(macs), outs)
